@@ -24,8 +24,23 @@ def Env.clearRound (e : Env) : Env := { e with resps := [], fl := [], vf := [], 
 
 def optNat (s : String) : Option Nat := if s == "-" then none else s.toNat?
 
-def Env.net (e : Env) (pick : Nat) : Net :=
-  { peers := (List.range e.np).map (· + 1)
+def insertAll (x : Nat) : List Nat → List (List Nat)
+  | [] => [[x]]
+  | y :: ys => (x :: y :: ys) :: (insertAll x ys).map (y :: ·)
+
+def perms : List Nat → List (List Nat)
+  | [] => [[]]
+  | x :: xs => (perms xs).flatMap (insertAll x)
+
+def Env.allPeers (e : Env) : List Nat := (List.range e.np).map (· + 1)
+
+/-- the iteration orders of the peer map worth distinguishing: one, unless some
+peer advertises the all-zero hash (the sentinel of the mismatch test) -/
+def Env.orders (e : Env) : List (List Nat) :=
+  if e.resps.any (fun r => r.2.hashes.contains 0 || r.2.prev == 0) then perms e.allPeers else [e.allPeers]
+
+def Env.net (e : Env) (pick : Nat) (order : List Nat := e.allPeers) : Net :=
+  { peers := order
     resps := fun p => (e.resps.filter (·.1 == p)).map (·.2)
     served := fun p h => ((e.fl.find? (fun x => x.1 == (p, h))).map (·.2)).getD none
     verify := fun f h => ((e.vf.find? (fun x => x.1 == (f, h))).map (·.2)).getD (.ok 0)
@@ -170,9 +185,12 @@ def runCase : CaseFn := fun c => Id.run do
         servedLists := [fs.map nat!]
       | ["tipround"] =>
         isRound := true
-        for pick in List.range (max 1 e.np) do
-          let r := tipRound H st (e.net pick)
-          cands := cands ++ [(r.1, showT r.2 ++ " | " ++ showSt st r.1)]
+        for order in e.orders do
+          for pick in List.range (max 1 e.np) do
+            let r := tipRound H st (e.net pick order)
+            let txt := showT r.2 ++ " | " ++ showSt st r.1
+            if !cands.any (fun x => x.2 == txt) then
+              cands := cands ++ [(r.1, txt)]
       | _ => out := out.push s!"DIFF C03 case {c.num} line {ln}: unknown op <{op}>"
       if !diverged then
         match cands.find? (fun x => x.2 == obs) with
